@@ -464,7 +464,7 @@ impl<'a> ReplyData<'a> {
             }
             _ => quote! {
                 #sylvia ::cw_std::SubMsgResult::Ok(sub_msg_resp) => {
-                    let mut resp = sylvia::cw_std::Response::new().add_events(sub_msg_resp.events);
+                    let mut resp = #sylvia ::cw_std::Response::new().add_events(sub_msg_resp.events);
 
                     #[allow(deprecated)]
                     if sub_msg_resp.data.is_some() {
@@ -514,7 +514,7 @@ impl<'a> ReplyData<'a> {
             }
             _ => quote! {
                 #sylvia ::cw_std::SubMsgResult::Err(error) => {
-                    Err(sylvia::cw_std::StdError::generic_err(error)).map_err(Into::into)
+                    Err( #sylvia ::cw_std::StdError::generic_err(error)).map_err(Into::into)
                 }
             },
         }
